@@ -15,11 +15,11 @@ PROPERTY = "C02"
 LEVEL = "exploration"
 SHARDS = {"quick": 4, "thorough": 16}
 REQUIRED = ["response-model", "content-length-vs-counted", "head-equals-get", "byteranges-parts", "if-range-decision",
-            "zerocopy-window"]
+            "zerocopy-window", "reused-response-object"]
 RULE = ("Files of position-coded bytes (all >= 0x80) with sizes {0,1,c-1,c,c+1,2c,3c+1, 9..11, 99..101, 999..1001, 9999..10001} for "
         "chunk sizes c in {1,2,3,4,7,8,64,262144}; Range headers = all 1-spec and sampled 2-spec sets over {0,1,c-1,c,c+1,size-1,size,size+1} "
         "in the three spec forms + random 3-6-spec sets + malformed/other-unit/empty headers; If-Range in {absent,current ETag,stale ETag,"
-        "weak ETag,current Last-Modified,other date,garbage,empty}; GET/HEAD; WSGI / ASGI / ASGI+zerocopy. Non-trivial = a Range header is "
+        "weak ETag,current Last-Modified,other date,garbage,empty}; GET/HEAD; WSGI / ASGI / ASGI+zerocopy; plus one response object serving 2-4 requests in a row. Non-trivial = a Range header is "
         "present; distinct = (interface,method,size,chunk,range,if-range kind).")
 ASSUMPTIONS = [
     "Range headers are limited to the RFC 7233 grammar plus headers every reading rejects (no '=', other unit, no spec); leniently accepted garbage is C03's business",
@@ -58,17 +58,17 @@ class Env:
         return self.files[key]
 
 
-def call(iface, path, chunk, method, headers):
+def call(iface, path, chunk, method, headers, resp=None):
     from baize import asgi, wsgi
     req = drivers.Req(method=method, path=b"/f", headers=headers,
                       extensions={"http.response.zerocopysend": {}} if iface == "asgi-zc" else None)
     random.seed(20240229)  # same multipart boundary for GET and HEAD / both interfaces
     if iface == "wsgi":
-        resp = wsgi.FileResponse(path, chunk_size=chunk)
+        resp = resp or wsgi.FileResponse(path, chunk_size=chunk)
         r = drivers.run_wsgi(resp, drivers.to_environ(req))
         hdrs = drivers.norm_headers_wsgi(r.headers)
         return r, r.code, hdrs, r.body
-    resp = asgi.FileResponse(path, chunk_size=chunk)
+    resp = resp or asgi.FileResponse(path, chunk_size=chunk)
     r = drivers.run_asgi(resp, drivers.to_scope(req))
     return r, r.status, drivers.norm_headers_asgi(r.headers), r.body
 
@@ -78,8 +78,8 @@ def hget(hdrs, name):
     return vals[0] if len(vals) == 1 else (None if not vals else vals)
 
 
-def execute(ctx, env, case):
-    """case: iface, size, ext, chunk, range (str|None), if_range (kind), method"""
+def execute(ctx, env, case, resp=None):
+    """case: iface, size, ext, chunk, range (str|None), if_range (kind), method; resp = an already used response object (reuse)"""
     iface, size, chunk, method = case["iface"], case["size"], case["chunk"], case["method"]
     path, data = env.file(size, case.get("ext", ".bin"))
     ctype = "application/octet-stream" if case.get("ext", ".bin") == ".bin" else "text/plain"
@@ -101,7 +101,7 @@ def execute(ctx, env, case):
 
     fam = "wsgi" if iface == "wsgi" else "asgi"
     try:
-        r, status, hdrs, body = call(iface, path, chunk, method, headers)
+        r, status, hdrs, body = call(iface, path, chunk, method, headers, resp)
     except drivers.HarnessError:
         raise
     if r.exc is not None:
@@ -180,6 +180,8 @@ def execute(ctx, env, case):
         else:
             bnd = byteranges.boundary_of(ct if isinstance(ct, str) else "")
             ctx.mon("byteranges-parts")
+            if hget(hdrs, "content-range") is not None:
+                ctx.violation("206-multipart-with-top-level-content-range", case, repr(hget(hdrs, "content-range")))
             if bnd is None:
                 ctx.violation("206-multirange-without-byteranges-type", case, f"{ct!r} for {spans}")
                 return
@@ -292,11 +294,36 @@ def run(ctx):
             ctx.sample("head", case, cap=1)
         else:
             ctx.sample(case["iface"], case, cap=1)
+    # ---- one response object serving several requests in a row (a response instance is itself an application)
+    from baize import asgi, wsgi
+    pool = [None, "bytes=0-1", "bytes=1-3", "bytes=0-1,4-5", "bytes=2-", "bytes=-2", "bytes=99999-", "bytes=3-1", "", "bytes=0-0,2-2,4-4"]
+    for i in range(ctx.scale(400, 12_000)):
+        iface = rng.choice(IFACES)
+        size, chunk = rng.choice([(10, 3), (10, 64), (100, 7), (1000, 64)])
+        path, data = env.file(size, ".bin")
+        ns = wsgi if iface == "wsgi" else asgi
+        obj = ns.FileResponse(path, chunk_size=chunk)
+        seq = [rng.choice(pool) for _ in range(rng.randrange(2, 5))]
+        for j, rh in enumerate(seq):
+            case = {"iface": iface, "size": size, "chunk": chunk, "range": rh, "if_range": None, "method": rng.choice(["GET", "GET", "HEAD"]), "ext": ".bin",
+                    "reused_object_previous_ranges": seq[:j]}
+            execute(ctx, env, case, resp=obj)
+            ctx.mon("reused-response-object")
+            ctx.case(("reuse", iface, size, chunk, tuple(seq[:j + 1]), case["method"]))
+    ctx.sample("reused-object", {"iface": "asgi", "size": 10, "chunk": 3, "sequence": ["bytes=1-3", None]})
     ctx.monitors["parse_range-contract(icontract)"] = contracts.COUNTS["parse_range.post"]
 
 
 def replay(ctx, case):
+    from baize import asgi, wsgi
     contracts.arm_parse_range()
     env = Env(ctx)
-    execute(ctx, env, case)
+    obj = None
+    prev = case.get("reused_object_previous_ranges")
+    if prev is not None:
+        path, data = env.file(case["size"], case.get("ext", ".bin"))
+        obj = (wsgi if case["iface"] == "wsgi" else asgi).FileResponse(path, chunk_size=case["chunk"])
+        for rh in prev:
+            call(case["iface"], path, case["chunk"], "GET", [("Range", rh)] if rh is not None else [], obj)
+    execute(ctx, env, case, resp=obj)
     ctx.case(1)
